@@ -672,6 +672,9 @@ class NetworkXPropertyGraph(ABCPropertyGraph, NetworkXMixin):
         # deal with properties
         # remove all properties, including 'contracted' new property
         self.storage.get_graph(self.graph_id).nodes[real_node].clear()
+        # same for the 'contraction' property left on edges both nodes had in common
+        for _, _, edge_props in self.storage.get_graph(self.graph_id).edges(real_node, data=True):
+            edge_props.pop('contraction', None)
 
         # construct a new set of properties
         new_props = dict()
